@@ -4,6 +4,10 @@
 package bftx
 
 import (
+	"bytes"
+	"crypto/sha256"
+	"sort"
+
 	"github.com/LiskHQ/lisk-engine/pkg/blockchain"
 	"github.com/LiskHQ/lisk-engine/pkg/consensus/liskbft"
 	"github.com/LiskHQ/lisk-engine/pkg/db"
@@ -43,17 +47,62 @@ type Info struct {
 	PV, PC         uint64
 }
 type Obs struct {
-	Err     int         `json:"err"`    // 0 ok, 1 BeforeTransactionsExecute error, 2 SetBFTParameters error
-	Contra  bool        `json:"contra"` // IsHeaderContradictingChain before applying
-	Heights [3]uint32   `json:"heights"`
-	Infos   [][6]uint64 `json:"infos"` // height, gen, mhg, mhp, prevote weight, precommit weight
-	Act     [][3]uint32 `json:"act"`   // addr, minActiveHeight, largestHeightPrecommit
-	PKeys   []uint32    `json:"pkeys"`
-	IMP     int         `json:"imp"`   // ImpliesMaximalPrevotes: 0 false 1 true 2 error
-	Next    int64       `json:"next"`  // NextHeightBFTParameters(tip) or -1
-	GKeys   []uint32    `json:"gkeys"` // heights with a generator keys entry
-	Gens    []GenProbe  `json:"gens"`  // GetGeneratorKeys at probe heights
-	At      [][2]uint32 `json:"at"`    // (slot, address of Generators.AtTimestamp) for the generators of tip+1
+	Err     int          `json:"err"`    // 0 ok, 1 BeforeTransactionsExecute error, 2 SetBFTParameters error
+	Contra  bool         `json:"contra"` // IsHeaderContradictingChain before applying
+	Heights [3]uint32    `json:"heights"`
+	Infos   [][6]uint64  `json:"infos"` // height, gen, mhg, mhp, prevote weight, precommit weight
+	Act     [][3]uint32  `json:"act"`   // addr, minActiveHeight, largestHeightPrecommit
+	PKeys   []uint32     `json:"pkeys"`
+	IMP     int          `json:"imp"`    // ImpliesMaximalPrevotes: 0 false 1 true 2 error
+	Next    int64        `json:"next"`   // NextHeightBFTParameters(tip) or -1
+	GKeys   []uint32     `json:"gkeys"`  // heights with a generator keys entry
+	Gens    []GenProbe   `json:"gens"`   // GetGeneratorKeys at probe heights
+	At      [][2]uint32  `json:"at"`     // (slot, address of Generators.AtTimestamp) for the generators of tip+1
+	Params  []ParamProbe `json:"params"` // GetBFTParameters at probe heights
+	VHash   bool         `json:"vhash"`  // every probed validatorsHash equals the independently computed LIP-0058 hash
+}
+
+// ParamProbe is the answer of GetBFTParameters(height).
+type ParamProbe struct {
+	H    uint32      `json:"h"`
+	Err  bool        `json:"err"`
+	PV   uint64      `json:"pv"`
+	PC   uint64      `json:"pc"`
+	Cert uint64      `json:"cert"`
+	Vals [][2]uint64 `json:"vals"` // (address, BFT weight) in stored order
+}
+
+func uvarint(x uint64) []byte {
+	out := []byte{}
+	for x >= 0x80 {
+		out = append(out, byte(x)|0x80)
+		x >>= 7
+	}
+	return append(out, byte(x))
+}
+
+// IndepValidatorsHash computes LIP-0058's validatorsHash from scratch (not through pkg/consensus/validator or pkg/codec):
+// sha256 of the Lisk encoding of {1: repeated {1: bytes blsKey, 2: uint64 bftWeight} sorted by blsKey, 2: uint64 certificateThreshold}.
+func IndepValidatorsHash(keys [][]byte, weights []uint64, cert uint64) []byte {
+	idx := make([]int, len(keys))
+	for i := range idx {
+		idx[i] = i
+	}
+	sort.SliceStable(idx, func(a, b int) bool { return bytes.Compare(keys[idx[a]], keys[idx[b]]) < 0 })
+	enc := []byte{}
+	for _, i := range idx {
+		inner := append([]byte{0x0a}, uvarint(uint64(len(keys[i])))...)
+		inner = append(inner, keys[i]...)
+		inner = append(inner, 0x10)
+		inner = append(inner, uvarint(weights[i])...)
+		enc = append(enc, 0x0a)
+		enc = append(enc, uvarint(uint64(len(inner)))...)
+		enc = append(enc, inner...)
+	}
+	enc = append(enc, 0x10)
+	enc = append(enc, uvarint(cert)...)
+	h := sha256.Sum256(enc)
+	return h[:]
 }
 
 // GenProbe is the answer of GetGeneratorKeys(height): the generator addresses, or Err.
@@ -193,9 +242,18 @@ func (n *Node) Apply(b Block) Obs {
 	m := n.m
 	store := n.store
 	{
-		ac := &blockchain.AggregateCommit{}
+		// an EMPTY aggregate commit (no bits and no signature) leaves maxHeightCertified alone whatever height it names; any
+		// other commit sets it: the three non-empty shapes (both parts, bits only, signature only) are rotated deterministically
+		ac := &blockchain.AggregateCommit{Height: b.H / 2}
 		if b.Cert != nil {
-			ac = &blockchain.AggregateCommit{Height: *b.Cert, AggregationBits: []byte{1}, CertificateSignature: []byte{1}}
+			switch (b.H + *b.Cert) % 3 {
+			case 0:
+				ac = &blockchain.AggregateCommit{Height: *b.Cert, AggregationBits: []byte{1}, CertificateSignature: []byte{1}}
+			case 1:
+				ac = &blockchain.AggregateCommit{Height: *b.Cert, AggregationBits: []byte{1}, CertificateSignature: []byte{}}
+			default:
+				ac = &blockchain.AggregateCommit{Height: *b.Cert, AggregationBits: []byte{}, CertificateSignature: []byte{1}}
+			}
 		}
 		bh := &blockchain.BlockHeader{Version: 2, Height: b.H, MaxHeightGenerated: b.MHG, MaxHeightPrevoted: b.MHP,
 			GeneratorAddress: Addr(b.Gen), AggregateCommit: ac}
@@ -271,6 +329,25 @@ func (n *Node) Apply(b Block) Obs {
 				p.Addrs = append(p.Addrs, AddrN(g.Address()))
 			}
 			o.Gens = append(o.Gens, p)
+		}
+		o.Params = []ParamProbe{}
+		o.VHash = true
+		for _, h := range []uint32{b.H + 1, b.H, oldest} {
+			ps, err := m.API().GetBFTParameters(store, h)
+			p := ParamProbe{H: h, Err: err != nil, Vals: [][2]uint64{}}
+			if err == nil {
+				p.PV, p.PC, p.Cert = ps.PrevoteThreshold(), ps.PrecommitThreshold(), ps.CertificateThreshold()
+				keys, ws := [][]byte{}, []uint64{}
+				for _, v := range ps.Validators() {
+					p.Vals = append(p.Vals, [2]uint64{uint64(AddrN(v.Address())), v.BFTWeight()})
+					keys = append(keys, v.BLSKey())
+					ws = append(ws, v.BFTWeight())
+				}
+				if !bytes.Equal(ps.ValidatorsHash(), IndepValidatorsHash(keys, ws, p.Cert)) {
+					o.VHash = false
+				}
+			}
+			o.Params = append(o.Params, p)
 		}
 		o.At = [][2]uint32{}
 		if gs, err := m.API().GetGeneratorKeys(store, b.H+1); err == nil && len(gs) > 0 {
